@@ -747,3 +747,70 @@ theorem herm_conj1 (cj : K →+* K) (hinv : ∀ x, cj (cj x) = x) (D : Nat) (mat
 
 end herm
 end SFV.Fock
+
+/-! ### Kraus channels: locality and trace preservation (C05, C07) -/
+namespace SFV.Fock
+open Finset
+
+section kraus
+variable {K : Type} [CommSemiring K]
+
+/-- rearrangement used for every Kraus term: `Σ_v Σ_b Σ_a conj U[v,b]·(U[v,a]·R[a,b]) = Σ_b Σ_a (Σ_v U[v,a]·conj U[v,b])·R[a,b]` -/
+theorem trace_rearrange {ι : Type} (P : Finset ι) (U Uc R : ι → ι → K) :
+    (∑ v ∈ P, ∑ b ∈ P, ∑ a ∈ P, Uc v b * (U v a * R a b)) =
+      ∑ b ∈ P, ∑ a ∈ P, (∑ v ∈ P, U v a * Uc v b) * R a b := by
+  rw [Finset.sum_comm]
+  refine Finset.sum_congr rfl fun b _ => ?_
+  rw [Finset.sum_comm]
+  refine Finset.sum_congr rfl fun a _ => ?_
+  rw [Finset.sum_mul]
+  refine Finset.sum_congr rfl fun v _ => ?_
+  ring
+
+theorem applyChannel1_nil (D : Nat) (m : Nat) (ρ : Tens K) (idx : Idx) :
+    applyChannel1 D ([] : List ((Nat → Nat → K) × (Nat → Nat → K))) m ρ idx = 0 := rfl
+
+theorem applyChannel1_cons (D : Nat) (k : (Nat → Nat → K) × (Nat → Nat → K)) (ks : List _) (m : Nat)
+    (ρ : Tens K) (idx : Idx) :
+    applyChannel1 D (k :: ks) m ρ idx =
+      applyAt1 D k.2 (2 * m + 1) (applyAt1 D k.1 (2 * m) ρ) idx + applyChannel1 D ks m ρ idx := rfl
+
+/-- the trace over the target mode after a Kraus channel, in terms of the Gram sums `Σ_k Σ_v K_k[v,a]·conj K_k[v,b]` -/
+theorem trace_channel1_gram (D : Nat) (ks : List ((Nat → Nat → K) × (Nat → Nat → K))) (m : Nat)
+    (ρ : Tens K) (idx : Idx) :
+    (∑ v ∈ range D, applyChannel1 D ks m ρ (upd (upd idx (2 * m) v) (2 * m + 1) v)) =
+      ∑ b ∈ range D, ∑ a ∈ range D,
+        (ks.map fun k => ∑ v ∈ range D, k.1 v a * k.2 v b).sum * ρ (upd (upd idx (2 * m) a) (2 * m + 1) b) := by
+  have h01 : 2 * m ≠ 2 * m + 1 := by omega
+  have key : ∀ v a b, upd (upd (upd (upd idx (2 * m) v) (2 * m + 1) v) (2 * m) a) (2 * m + 1) b
+      = upd (upd idx (2 * m) a) (2 * m + 1) b := by
+    intro v a b
+    rw [upd_comm (upd idx (2 * m) v) h01.symm v a, upd_upd_same, upd_upd_same]
+  induction ks with
+  | nil => simp [applyChannel1_nil]
+  | cons k ks ih =>
+    simp only [applyChannel1_cons, Finset.sum_add_distrib, ih, List.map_cons, List.sum_cons, add_mul]
+    congr 1
+    simp only [conj1_entry, key, upd_self_p, upd_other _ h01.symm, upd_other _ h01]
+    exact trace_rearrange (range D) k.1 k.2 (fun a b => ρ (upd (upd idx (2 * m) a) (2 * m + 1) b))
+
+/-- **Kraus channels are local and trace preserving**: if `Σ_k K_k† K_k = 1` on the truncated space, the
+state traced over the target mode (hence every reduced state of the other modes, and the total trace)
+is unchanged by `_apply_channel` — every position, every register size, any number of Kraus operators -/
+theorem trace_channel1 (D : Nat) (ks : List ((Nat → Nat → K) × (Nat → Nat → K))) (m : Nat)
+    (hcomplete : ∀ a b, a < D → b < D →
+      (ks.map fun k => ∑ v ∈ range D, k.1 v a * k.2 v b).sum = if a = b then 1 else 0)
+    (ρ : Tens K) (idx : Idx) :
+    (∑ v ∈ range D, applyChannel1 D ks m ρ (upd (upd idx (2 * m) v) (2 * m + 1) v)) =
+      ∑ v ∈ range D, ρ (upd (upd idx (2 * m) v) (2 * m + 1) v) := by
+  rw [trace_channel1_gram]
+  refine Finset.sum_congr rfl fun b hb => ?_
+  have : ∀ a ∈ range D, (ks.map fun k => ∑ v ∈ range D, k.1 v a * k.2 v b).sum *
+      ρ (upd (upd idx (2 * m) a) (2 * m + 1) b) = (if a = b then 1 else 0) * ρ (upd (upd idx (2 * m) a) (2 * m + 1) b) := by
+    intro a ha
+    rw [hcomplete a b (Finset.mem_range.mp ha) (Finset.mem_range.mp hb)]
+  rw [Finset.sum_congr rfl this]
+  simp [Finset.sum_ite_eq', hb]
+
+end kraus
+end SFV.Fock
